@@ -412,6 +412,46 @@ func TestVerifC11Pinned(t *testing.T) {
 		rec.NonTrivial(r.name, func() any { return r.name })
 	}
 
+	// Defects found on the pinned tree (repairs: /verif/fixes/C11-1.diff, C11-2.diff).
+	// 1. Nine author printer columns decode into a slice with spare capacity; both derivations appended the
+	//    default columns into it, so deriving the claim CRD rewrote the composite CRD's COMPOSITION column.
+	// 2. The CRD's label map was the XRD's own; merging spec.metadata.labels wrote into the XRD.
+	for _, r := range []struct {
+		name string
+		c    *c11gen.Case
+	}{
+		{"aliasing-nine-printer-columns", c11Pinned(`{}`, func(x *v1.CompositeResourceDefinition) {
+			for i := range x.Spec.Versions {
+				for j := 0; j < 9; j++ {
+					x.Spec.Versions[i].AdditionalPrinterColumns = append(x.Spec.Versions[i].AdditionalPrinterColumns,
+						extv1.CustomResourceColumnDefinition{Name: fmt.Sprintf("C%d", j), Type: "string", JSONPath: fmt.Sprintf(".spec.c%d", j)})
+				}
+			}
+		})},
+		{"aliasing-xrd-labels", c11Pinned(`{}`, func(x *v1.CompositeResourceDefinition) {
+			x.Labels = map[string]string{"team": "a"}
+			x.Spec.Metadata = &v1.CompositeResourceDefinitionSpecMetadata{Labels: map[string]string{"tier": "gold"}}
+		})},
+	} {
+		rec.Eval()
+		pt := &c11Pin{t: t, name: r.name}
+		func() {
+			defer func() {
+				if p := recover(); p != nil && p != any(pt) {
+					t.Errorf("pinned %s: PANIC %v", r.name, p)
+				}
+			}()
+			if !c11AliasCheck(pt, r.c.XRD) {
+				pt.Fatalf("derivation failed")
+			}
+			comp, _ := ForCompositeResource(r.c.XRD)
+			if got := comp.GetLabels(); r.name == "aliasing-xrd-labels" && (got["team"] != "a" || got["tier"] != "gold") {
+				pt.Fatalf("CRD labels are %v, want the XRD's labels plus spec.metadata.labels", got)
+			}
+		}()
+		rec.NonTrivial(r.name, func() any { return r.name })
+	}
+
 	// collisions, one per name field
 	for _, f := range []string{"kind", "plural", "singular", "listKind"} {
 		rec.Eval()
